@@ -40,7 +40,16 @@ int32_t __llsym_choice (const char *n, int i, int bound)
 }
 
 void __llsym_assume (int c) { if (!c) { printf ("ASSUME\n"); exit (12); } }
-void __llsym_assert (int c, int id) { if (!c) { printf ("ASSERT %d\n", id); exit (10); } }
+/* LLSYM_KEEP_GOING=1: report a failing assertion and continue, so that a replay shows every
+ * value the code under test computed; the exit status still says "assertion failed". */
+static int n_failed;
+void __llsym_assert (int c, int id)
+{
+  if (c) return;
+  printf ("ASSERT %d\n", id);
+  n_failed++;
+  if (!getenv ("LLSYM_KEEP_GOING")) exit (10);
+}
 void __llsym_fail (int id) { printf ("FAIL %d\n", id); exit (11); }
 void __llsym_exit (void) { printf ("EXIT\n"); exit (0); }
 
@@ -60,5 +69,5 @@ int main (int argc, char **argv)
   fclose (f);
   llsym_main ();
   printf ("DONE\n");
-  return 0;
+  return n_failed ? 10 : 0;
 }
